@@ -656,6 +656,7 @@ type c04dWorker struct {
 	pend  []func(string)
 	later []func() // follow-up requests queued by answers
 	size  int
+	flba  int // > 0: godec is looking at DecodeFixedLenByteArray of that value size
 
 	bp delta.BinaryPackedEncoding
 	lb delta.LengthByteArrayEncoding
@@ -902,7 +903,18 @@ func (w *c04dWorker) godec(kind, rawHex, goRes, canon string, malformed bool) {
 		}
 		ctx.Fail("L2", "delta-"+kind+"-decoder-mirror", "the Go decoder and the Lean mirror of the portable decoder disagree ("+ctx.Variant+" build)", detail)
 	})
-	if kind == "dba" && !malformed && ctx.Variant == "asm" && strings.HasPrefix(goRes, "ok ") {
+	if kind == "dba" && w.flba > 0 && !malformed && ctx.Variant == "asm" && strings.HasPrefix(goRes, "ok ") {
+		// FIXED_LEN_BYTE_ARRAY: the mirror of the amd64 wrapper of decodeFixedLenByteArray (previous value rebuilt as
+		// dst[i-size:], kernels by contract; theorem flba_amd64_wrapper_eq_portable)
+		w.ask(fmt.Sprintf("dba.godecflbaamd64 %d %s", w.flba, rawHex), func(ans string) {
+			if ans != goRes {
+				ctx.Fail("L2", "delta-flba-amd64-wrapper-mirror", "DecodeFixedLenByteArray on the assembly build and the Lean mirror of the amd64 Go wrapper (AVX2 kernels by contract) disagree",
+					map[string]any{"case": c04dClip(canon), "impl": c04dClip(goRes), "model": c04dClip(ans)})
+			} else {
+				ctx.Hist("decoder-mirror-flba-amd64-wrapper", "equal")
+			}
+		})
+	} else if kind == "dba" && !malformed && ctx.Variant == "asm" && strings.HasPrefix(goRes, "ok ") {
 		// the mirror of what the assembly build really runs: the amd64 Go wrapper with the AVX2 kernels
 		// replaced by their contract (theorem dba_amd64_wrapper_eq_portable)
 		w.ask("dba.godecamd64 "+rawHex, func(ans string) {
@@ -1107,7 +1119,16 @@ func (w *c04dWorker) runFLBA(c c04dCase) {
 				map[string]any{"case": canon, "bytes": refHex, "spec": c04dClip(ans)})
 		}
 	})
-	w.godec("dba", refHex, "ok "+c04dVals(vals), canon, false)
+	goVals := vals // what Go's decoder returned, where it has the right length (L1 above otherwise)
+	if derr == nil && len(w.decB) == len(c.raw) {
+		goVals = make([][]byte, n)
+		for i := range goVals {
+			goVals[i] = w.decB[i*c.size : (i+1)*c.size]
+		}
+	}
+	w.flba = c.size
+	w.godec("dba", refHex, "ok "+c04dVals(goVals), canon, false)
+	w.flba = 0
 	w.ask(fmt.Sprintf("dba.encflba %d %s", c.size, core.Hex(c.raw)), func(ans string) {
 		if ans != "ok "+refHex {
 			ctx.Fail("L2", "dba-flba-mirror-bytes", "Go encoder bytes differ from the Lean mirror ("+ctx.Variant+" build)",
@@ -1390,7 +1411,9 @@ func (w *c04dWorker) runConformant(c c04dCase) {
 	case "confdlba":
 		w.godec("dlba", rawHex, c04dGoDecodeDLBARaw(c04dBeyond(c.raw, 0xFF)), canon, false)
 	case "confflba":
+		w.flba = c.size
 		w.godec("dba", rawHex, goRes, canon, false)
+		w.flba = 0
 	default:
 		w.godec(strings.TrimPrefix(c.kind, "conf"), rawHex, goRes, canon, false)
 	}
